@@ -62,6 +62,8 @@ def build_plain(case):
     from cspuz.array import IntArray1D, IntArray2D
 
     s = Solver()
+    if case.get("used"):
+        gcheck.junk(s)
     spec = case["spec"]
     extra = []
     n = case["n"]
@@ -156,6 +158,8 @@ def build_borders(case):
     from cspuz.grid_frame import BoolInnerGridFrame
 
     s = Solver()
+    if case.get("used"):
+        gcheck.junk(s)
     spec = case["spec"]
     n = case["n"]
     extra = []
@@ -309,9 +313,18 @@ def scale_cases(tier):
     return out
 
 
+def _small(c):
+    """Cases cheap enough to repeat on a Solver that is already in use."""
+    if "shape" in c:
+        return (c["shape"][0] + 1) * (c["shape"][1] + 1) <= 9
+    return c.get("n", 9) <= 3 and len(c.get("edges", ())) <= 4
+
+
 def prepare(tier):
     global _CASES
-    _CASES = cases_for(tier) + scale_cases(tier)
+    base_cases = cases_for(tier)
+    used = [dict(c, used=True) for c in base_cases[:: (7 if tier == "quick" else 3)] if _small(c)]
+    _CASES = base_cases + used + scale_cases(tier)
     return _CASES
 
 
